@@ -17,6 +17,20 @@ fn main() {
         };
         std::process::exit(replay(path));
     }
+    if let Some(p) = args.iter().position(|a| a == "--dump") {
+        // debugging aid: print the generated scenario of run index i
+        let i: u64 = args.get(p + 1).and_then(|s| s.parse().ok()).unwrap_or(0);
+        let corp = corpus::load(&format!("{}/ui-tests", util::REPO_DIR));
+        let seed = rng::run_seed(rng::root_seed(), "sim-gc", i);
+        let sc = if !corp.entries.is_empty() && i % 4 == 3 { gcsim::corpus_scenario(&corp, (i / 4) as usize) } else { gcsim::gen_scenario(seed) };
+        println!("{}", gcsim::scenario_to_json(&sc, &gcsim::SchedSpec::never(), Some(&std::collections::BTreeSet::new())).to_pretty());
+        for (k, v) in sc.world.files.iter() {
+            if !sc.origin.starts_with("corpus") {
+                println!("--- {k}\n{}", String::from_utf8_lossy(v));
+            }
+        }
+        return;
+    }
     let tier = util::tier_from_args(&args);
     let root = rng::root_seed();
     let workers = util::num_workers();
